@@ -487,3 +487,49 @@ def api_replay_trunc_ok(H, size):
 
         out.append(api.with_product(run, level="1.5", n=N, p=5, pols=("HH",)))
     return {"reproduced": any(o["reproduced"] for o in out), "runs": out}
+
+
+# ------------------------------------------------------------------------------- open_image on a truncated image (C18)
+
+
+def _trunc_open_case(n, rpc, H, L, size, pixels):
+    class DirFS(StubFS):
+        def __init__(self, path=None, fs=None):
+            super().__init__({IMGNAME: size}, path=path)
+            self.fs = fs
+
+    mapper = StubMapper("/prod", StubFS({}))
+    orig_dfs = _DFS.DirFileSystem
+    _DFS.DirFileSystem = DirFS
+    _patch_io(n, H, L)
+    IO.file_descriptor_record = FDStubFull(n, L, n, pixels, TYPE_CODE)
+    A.np = _NP(lambda parts, axis=0: Out(stub_stack(parts)))
+    try:
+        try:
+            group = SI.open_image(mapper, IMGNAME, use_cache=False, create_cache=False, records_per_chunk=rpc)
+        except (ValueError, EOFError):
+            return True  # fail-stop
+        # returned although the file is short: then the tree must be inconsistent in a way the Dataset constructor rejects -
+        # the image variable keeps the header-declared line count while the per-line variables have fewer entries
+        arr = group["data"].data
+        lines = [len(v.data) for k, v in group.variables.items() if k != "data"]
+        return (arr.shape[0] == n) & (len(lines) > 0) & all(m < n for m in lines) & (list(group["data"].dims) == ["rows", "columns"])
+    finally:
+        _unpatch_io()
+        A.np = _A_ORIG[1]
+        _DFS.DirFileSystem = orig_dfs
+
+
+def trunc_open_ok(H: int, size: int, pixels: int) -> bool:
+    """
+    pre: 12 <= H < LREC and pixels >= 1
+    pre: 720 <= size < 720 + N * LREC
+    post: _
+    """
+    ok = True
+    for rpc in RPCS:
+        ok = ok & _trunc_open_case(N, rpc, H, LREC, size, pixels)
+    return ok
+
+
+api_replay_trunc_open_ok = lambda H, size, pixels: api_replay_trunc_ok(H, size)  # noqa: E731
